@@ -271,6 +271,9 @@ def compare(got, exp, check_sc=False):
             # input as escaped payload bytes 00 00 03 [00..]: judged on the unescaped payload without trailing
             # zero bytes, counted as an observation
             notes["rpu-rewrite-carries-trailing-zero-bytes-into-payload"] = notes.get("rpu-rewrite-carries-trailing-zero-bytes-into-payload", 0) + 1
+        elif gt == et == H.SEI_PREFIX and gd != ed and rpu_norm(gd) == rpu_norm(ed):
+            # rewritten SEI NAL (--drop-hdr10plus) that carries former framing zero bytes as escaped payload
+            notes["sei-rewrite-carries-trailing-zero-bytes-into-payload"] = notes.get("sei-rewrite-carries-trailing-zero-bytes-into-payload", 0) + 1
         elif gt != et or gd != ed:
             return False, _diff(g, exp), notes
         if check_sc and esc is not None and gsc != esc:
